@@ -112,6 +112,16 @@ pub fn replay(case: &J) -> J {
             let (a, b) = (case["a"].as_str().unwrap(), case["b"].as_str().unwrap());
             let ok = units::convert(1.0, a, b).is_ok();
             if ok != case["convertible"].as_bool().unwrap() { mism.push(json!({"src": format!("convert(1, {:?}, {:?})", a, b), "exp": case["convertible"], "obs": ok})); }
+            // the same verdict for EVERY identifier of the two units, in both directions (symbols whose other casing names a unit
+            // of another category included)
+            let find = |first: &str| table.iter().find(|u| u.identifiers[0] == first).map(|u| u.identifiers.to_vec()).unwrap_or_default();
+            let want = case["convertible"].as_bool().unwrap();
+            for ia in find(a) { for ib in find(b) {
+                for (x, y) in [(ia, ib), (ib, ia)] {
+                    let got = units::convert(1.0, x, y).is_ok();
+                    if got != want { mism.push(json!({"src": format!("convert(1, {:?}, {:?})", x, y), "exp": want, "obs": got})); }
+                }
+            } }
             // the built-in agrees with the library function
             let s = Session::new();
             let o = s.eval(&format!("convert(1, {}, {})", mv::str_src(a), mv::str_src(b)));
@@ -183,6 +193,16 @@ pub fn record(seed: u64, thorough: bool) -> Vec<J> {
                             out.push(json!({"ev":"num","law":"triangle","src":format!("convert({x}, {ida} -> {idb} -> {idc}) vs direct"),"ulps": ulps_at_scale(abc, ac, floor)}));
                         }
                     }
+                }
+                // through the language, every identifier of the unit is that unit (the built-in hands the strings over untouched)
+                if ia == ib && k == 3 {
+                    let s = Session::new();
+                    for alias in a.identifiers.iter() {
+                        let o = s.eval(&format!("convert(1, {}, {})", mv::str_src(alias), mv::str_src(ida)));
+                        let u = match o { Outcome::Ok(Value::Number(v)) => ulps(v, 1.0), _ => 1_000_000 };
+                        out.push(json!({"ev":"num","law":"builtin","src":format!("convert(1, {alias:?}, {ida:?}) built-in"),"ulps":u}));
+                    }
+                    crate::ev::clear_stats();
                 }
                 // the convert built-in gives the library's value
                 if k % 4 == 0 {
